@@ -121,7 +121,7 @@ pub fn inputs<F: Fam>(tier: &str, seed: u64, ops: Option<&[String]>, n_quick: us
             if i % step == 0 {
                 if want_mut {
                     if let Ok(e) = F::encode(&p) {
-                        if e.len() < 3000 {
+                        if e.len() < 40_000 {
                             bytes.push(e);
                         }
                     }
@@ -337,6 +337,120 @@ pub fn c02_property_boundaries(rep: &mut Report) {
                 }
             }
             other => rep.fail("property-section-width", input.clone(), format!("encode/encode_len gave {:?}", other.map(|(a, b)| (a.map(|e| e.len()), b)))),
+        }
+    }
+}
+
+/// HISTORY INVARIANCE: a list of frames (valid and malformed, the same texts in different roles) is decoded
+/// by all three front-ends once in order and once in a permuted order; every frame must get the same
+/// answer both times.  Needs no expected values: it finds results that depend on what was decoded before
+/// (memoised validations, "last topic" caches, a family flag left behind).
+pub fn history_invariance<F: Fam>(rep: &mut Report, frames: &[Vec<u8>]) {
+    let show = |b: &[u8]| -> String {
+        let r = catch_unwind(AssertUnwindSafe(|| {
+            let d = match F::decode(b) {
+                Ok(Some(p)) => format!("ok {}", F::show(&p)),
+                Ok(None) => "incomplete".into(),
+                Err(e) => format!("err {}", e.text),
+            };
+            let a = match F::decode_async(b, vec![], Term::Eof).0 {
+                Ok(p) => format!("ok {}", F::show(&p)),
+                Err(e) => format!("err {}", e.text),
+            };
+            let p = match F::poll(b, vec![], Term::Eof).res {
+                Ok((t, _, p)) => format!("ok {} {}", t, F::show(&p)),
+                Err(e) => format!("err {}", e.text),
+            };
+            format!("blocking: {} | async: {} | poll: {}", d, a, p)
+        }));
+        r.unwrap_or_else(|_| "panic".into())
+    };
+    let n = frames.len();
+    if n == 0 {
+        return;
+    }
+    let first: Vec<String> = frames.iter().map(|f| show(f)).collect();
+    // second pass: a stride permutation, so every frame now has different predecessors
+    let stride = (1..n).rev().find(|k| gcd(*k, n) == 1 && *k * 2 > n).unwrap_or(1);
+    let mut prev = 0usize;
+    for k in 0..n {
+        let i = (k * stride + 1) % n;
+        rep.cases += 1;
+        let again = show(&frames[i]);
+        if again != first[i] {
+            rep.fail(
+                "history-dependent",
+                format!("dec {} {}", F::NAME, hex_or_dash(&frames[i])),
+                format!("decoded after {}: {} ; decoded after {}: {}", if i == 0 { "nothing".to_string() } else { format!("dec {} {}", F::NAME, hex_or_dash(&frames[i - 1])) }, &first[i][..first[i].len().min(300)], format!("dec {} {}", F::NAME, hex_or_dash(&frames[prev])), &again[..again.len().min(300)]),
+            );
+        }
+        prev = i;
+    }
+}
+
+fn gcd(a: usize, b: usize) -> usize {
+    if b == 0 {
+        a
+    } else {
+        gcd(b, a % b)
+    }
+}
+
+/// the frames of the `hist` stream for one family
+pub fn hist_frames<F: Fam>(tier: &str, seed: u64) -> Vec<Vec<u8>> {
+    crate::gen::gen("hist", tier, seed)
+        .iter()
+        .filter_map(|l| {
+            let t: Vec<&str> = l.split_whitespace().collect();
+            if t.len() >= 3 && t[0] == "dec" && t[1] == F::NAME {
+                unhex(t[2])
+            } else {
+                None
+            }
+        })
+        .collect()
+}
+
+/// FULL two-dimensional sweeps of the lengths of two adjacent fields, 0..=200 × 0..=200 (a stack buffer or a
+/// fast path sized from two fields at once has its edge at an arbitrary pair such as (42, 82)): encode vs
+/// encode_len vs header, and decode back.
+pub fn pair_sweeps(rep: &mut Report, roundtrip: bool) {
+    use mqtt_proto::{v3, v5, Pid, Protocol, QosPid, TopicName};
+    use std::convert::TryFrom;
+    use std::sync::Arc;
+    let names: Vec<Arc<String>> = (0..=200).map(|n| Arc::new("n".repeat(n))).collect();
+    let values: Vec<Arc<String>> = (0..=200).map(|n| Arc::new("v".repeat(n))).collect();
+    fn one<F: Fam>(rep: &mut Report, p: &F::P, what: impl Fn() -> String, roundtrip: bool) {
+        rep.cases += 1;
+        let r = catch_unwind(AssertUnwindSafe(|| (F::encode(p), F::encode_len(p))));
+        match r {
+            Ok((Ok(e), Ok(l))) => {
+                let fine = e.len() == l && matches!(frame_extent(&e), Some((h, rl)) if h + rl == e.len());
+                if !fine {
+                    rep.fail("pair-sweep-len", what(), format!("encode wrote {} bytes, encode_len says {}, fixed header says {:?}", e.len(), l, frame_extent(&e)));
+                } else if roundtrip {
+                    match F::decode(&e) {
+                        Ok(Some(q)) if &q == p => {}
+                        other => rep.fail("pair-sweep-roundtrip", what(), format!("decode of the encoding gave {:?}", other.map(|o| o.map(|q| F::show(&q))).map_err(|e| e.text))),
+                    }
+                }
+            }
+            Ok((a, b)) => rep.fail("pair-sweep-len", what(), format!("encode gave {:?}, encode_len gave {:?}", a.map(|e| e.len()).map_err(|e| e.text), b.map_err(|e| e.text))),
+            Err(_) => rep.fail("encode-panic", what(), "the real code panicked".into()),
+        }
+    }
+    let pid = Pid::try_from(3).unwrap();
+    for a in 0..=200usize {
+        for b in 0..=200usize {
+            let up = vec![v5::UserProperty { name: names[a].clone(), value: values[b].clone() }];
+            let p = v5::Packet::Puback(v5::Puback { pid, reason_code: v5::PubackReasonCode::Success, properties: v5::PubackProperties { reason_string: None, user_properties: up } });
+            one::<V5>(rep, &p, || format!("v5 PUBACK with one user property, name {} bytes, value {} bytes", a, b), roundtrip);
+            let p = v3::Packet::Connect(v3::Connect { protocol: Protocol::V311, clean_session: true, keep_alive: 9, client_id: names[a].clone(), last_will: None, username: Some(values[b].clone()), password: Some(vec![b'p'; (a + b) % 14].into()) });
+            one::<V3>(rep, &p, || format!("v3 CONNECT, client id {} bytes, user name {} bytes, password {} bytes", a, b, (a + b) % 14), roundtrip);
+            if a > 0 && (a + b) % 3 == 0 {
+                let p = v5::Packet::Publish(v5::Publish { dup: false, retain: false, qos_pid: QosPid::Level0, topic_name: TopicName::try_from("t".repeat(a)).unwrap(), payload: vec![7u8; b].into(), properties: v5::PublishProperties { content_type: Some(values[b % 7].clone()), ..Default::default() } });
+                one::<V5>(rep, &p, || format!("v5 PUBLISH, topic {} bytes, payload {} bytes", a, b), roundtrip);
+            }
         }
     }
 }
